@@ -37,6 +37,8 @@ def run(ck):
     ck.trusted += ['Coq 8.16.1 kernel', 'Interval 4.6.1 (`interval`)', 'real-number axioms of the standard library', 'mpmath closed forms (50 digits)']
     ck.assumptions += ['tolerances: float64 1e-9 (light kernel 2e-6 * (sqrt u)^q scale), float32 2e-5', 'positive semi-definiteness is tested numerically, not proved']
     ck.check_theorems()
+    from harness import kernelops
+    kernelops.check_translation(ck)
     rng = np.random.default_rng(ck.seed + 505)
     # (d) aliases
     bad = []
